@@ -70,6 +70,71 @@ theorem canonical_guard_needed :
     (∃ k, k ∈ (hs.kindsOf false).2.2 ∧ ∃ k', k' ∈ (hs.kindsOf false).1 ∧ kname k = kname k') := by
   refine ⟨by decide, 100, by decide, 0, by decide, by decide⟩
 
+/-! ### the factory discharges the canonical-kind guard -/
+
+/-- `graph.StringKind` as a function of the name: the one interned handle of that name (names are 0..99 in the model) -/
+def stringKind (name : Nat) : Kind := name % 100
+
+/-- For ANY factory that is a function of the name and whose handles report that name (`kname (mk n) = n`), `Is` and `==`
+coincide on everything it returns: the two equalities `Kinds.Add` and `Kinds.Remove` mix cannot be told apart. -/
+theorem factory_kinds_coherent (mk : Nat → Kind) (h : ∀ n, kname (mk n) = n) (a b : Nat) :
+    kis (mk a) (mk b) = true ↔ mk a = mk b := by
+  unfold kis
+  rw [h a, h b]
+  constructor
+  · intro e; rw [beq_iff_eq] at e; rw [e]
+  · intro e
+    have : kname (mk a) = kname (mk b) := by rw [e]
+    rw [h a, h b] at this
+    rw [this]; exact beq_self_eq_true b
+
+/-- Kinds obtained from `StringKind` / `StringsToKinds` satisfy the guards of `heap_refines_model` by construction: loaded
+kinds are `Canon`, `AddKinds` / `DeleteKinds` with them are `Plain` — the guard is a property of the factory, not a
+hypothesis the caller has to remember. -/
+theorem factory_discharges_canonical_guard (names : List Nat) (e : Bool) :
+    Canon (names.map stringKind) ∧ (Op.addKinds e (names.map (fun n => some (stringKind n)))).Plain ∧
+    (Op.deleteKinds e (names.map stringKind)).Plain := by
+  have hlt : ∀ n, stringKind n < 100 := fun n => Nat.mod_lt n (by decide)
+  refine ⟨?_, ?_, ?_⟩
+  · intro x hx
+    obtain ⟨n, _, rfl⟩ := List.mem_map.1 hx
+    exact hlt n
+  · intro k hk
+    obtain ⟨n, _, hn⟩ := List.mem_map.1 hk
+    injection hn with hn
+    rw [← hn]; exact hlt n
+  · intro x hx
+    obtain ⟨n, _, rfl⟩ := List.mem_map.1 hx
+    exact hlt n
+
+/-- … so for two nodes built from factory kinds and edited with factory kinds the slices are the list model, with no
+hypothesis on the kinds at all -/
+theorem factory_kinds_refine (names : List Nat) (store : Option KV) (prep : Bool)
+    (ops : List Op) (hops : ∀ o, o ∈ ops →
+      (∃ (e : Bool) (ns : List Nat), o = .addKinds e (ns.map (fun n => some (stringKind n)))) ∨
+      (∃ (e : Bool) (ns : List Nat), o = .deleteKinds e (ns.map stringKind)) ∨
+      (∃ e f, o = .nmerge e f ∧ e ≠ f) ∨ (∃ e k v, o = .set e k v) ∨ (∃ e k, o = .delete e k) ∨ (∃ e, o = .json e)) :
+    let L : Loaded := { store := store, kinds := names.map stringKind }
+    ∀ e, ((HSt.init L.kinds false prep).run false ops).kindsOf e = (((St.init L).run false ops).get e).triple := by
+  intro L
+  refine (heap_refines_model L prep (factory_discharges_canonical_guard names false).1 ops ?_).2
+  intro o ho
+  rcases hops o ho with ⟨e, ns, rfl⟩ | ⟨e, ns, rfl⟩ | ⟨e, f, rfl, hef⟩ | ⟨e, k, v, rfl⟩ | ⟨e, k, rfl⟩ | ⟨e, rfl⟩
+  · exact (factory_discharges_canonical_guard ns e).2.1
+  · exact (factory_discharges_canonical_guard ns e).2.2
+  · exact hef
+  · trivial
+  · trivial
+  · trivial
+
+/-- A factory that is NOT a function of the name — two racing first calls of `StringKind("A")` each keeping their own
+pointer (Load miss, then Store) — hands out a second handle of the name: exactly the foreign kind of
+`canonical_guard_needed` (code 100: same name as 0, different identity), made by the library itself. -/
+theorem racy_factory_breaks_guard :
+    kname 100 = kname (stringKind 0) ∧ (100 : Kind) ≠ stringKind 0 ∧ kis 100 (stringKind 0) = true ∧
+    (let hs := (HSt.init [stringKind 0] false false).deleteKinds false [100]
+     hs.kindsOf false = ([0], [], [100])) := by decide
+
 /-- … and `n.Merge(n)` (excluded from `heap_refines_model` because the receiver reads its own headers while writing
 them) is nevertheless harmless on a consistent node: an example, not a theorem — the tie runs self merges. -/
 example :
